@@ -307,6 +307,9 @@ def gen_histories(ck, n, steps, cxx=False):
         names = NAMES[kind]
         # spellings mpt_<kind>_set knows come first in each list (up to the first upper-case variant + those)
         known = [n for n in names if n.lower() in SETNAMES[kind]]
+        # open finding "text x/y outside [0,1] cannot be transferred property-wise": keep the recorded C++ histories out
+        # of that condition while it is listed (binding A still meets it), so the rest of them is validated
+        unit_xy = cxx and kind == "text" and any("src-xy-outside-0..1" in f.get("signature", "") for f in ck.findings)
         beh = [{"a": "init", "arg": {"kind": kind}}]
         for _ in range(steps):
             r = rng.random()
@@ -314,6 +317,8 @@ def gen_histories(ck, n, steps, cxx=False):
             if r < 0.55:
                 nm = rng.choice(known) if rng.random() < 0.85 else rng.choice(names)
                 v = fitting_value(rng, nm) if rng.random() < 0.6 else rand_value(rng)
+                if unit_xy and nm.lower() in ("x", "y"):
+                    v = {"f": "num", "n": dbl(rng.choice([0, 1, 2])), "c": [], "sty": "dec"}
                 if v["f"] in ("num", "txt", "rle") and rng.random() < 0.2:
                     v["f"] = "p" + v["f"]              # same text through mpt_object_set_property
                 beh.append({"a": "set", "arg": dict({"o": o, "name": codes(nm)}, **v)})
@@ -363,7 +368,7 @@ def gen_histories(ck, n, steps, cxx=False):
     return hist
 
 
-def trace_part(ck, hist, recs2, tag, nt, pfx="", max_rounds=8):
+def trace_part(ck, hist, recs2, tag, nt, pfx="", max_rounds=12):
     """TLC validates the recorded histories; a rejected history is reported, dropped and the rest validated again."""
     events = vlib.merge_trace(hist, recs2)
     total = len(events)
